@@ -52,7 +52,71 @@ def c13(prog, rep):
                         'a node whose every definition in the function is a fresh allocation is private until published (flow-insensitive)']
 
 
+CONTAINER_UNITS = ['src/containers/qtreetbl.c', 'src/containers/qhashtbl.c', 'src/containers/qhasharr.c',
+                   'src/containers/qlisttbl.c', 'src/containers/qlist.c', 'src/containers/qvector.c',
+                   'src/containers/qqueue.c', 'src/containers/qstack.c', 'src/containers/qgrow.c']
+
+
+def c11(prog, rep):
+    from . import copy as C, own as O, lockset as L, hashrules as H
+    om = O.OwnModel(prog)
+    sm = L.SharedModel(prog)
+    for u in C.C11_UNITS:
+        prog.unit(u)
+    C.rule_m1(prog, rep, C.C11_UNITS)
+    O.rule_m2(prog, rep, om, C.C11_UNITS, sm, fault=False)
+    O.rule_m3(prog, rep, om, C.C11_UNITS)
+    C.rule_m4(prog, rep, C.C11_UNITS)
+    H.rule_h2(prog, rep)
+    rep.floor('M1', 6)
+    rep.floor('M2', 30)
+    rep.floor('M3', 50)
+    rep.floor('M4', 9)
+    rep.floor('H2', 2)
+    rep.explanation = (
+        'Structural memory-safety clauses over the 11 anchored units, all CFG paths: M1 every memcpy/strcpy/strncpy whose '
+        'operands can share a base object (origins over reaching definitions) must be provably disjoint (affine distance = '
+        'length, distinct whole array elements, or i<j guard) - otherwise memmove; M2 every destruction site that frees an '
+        'owned field frees all owned fields and the node (ownership derived from what the code frees; replace idiom and '
+        'NULL-tested fields understood), free(node) requires its owned fields released; M3 no dereference / re-free / hand-over '
+        'of a freed path before re-assignment; M4 allocation size equals copy length (or +1); H2 counted hash scans test the '
+        'count before dereferencing. Not decided: absence of all undefined behaviour over all histories.')
+    rep.assumptions += ['aliasing is tracked by access path (one level of local alias resolution)',
+                        'callee effects through summaries: frees-parameter, releases-fields-of-parameter, returns-fresh',
+                        'M2 on paths through an allocation-failure branch is reported under C15, not C11']
+
+
+def c15(prog, rep):
+    from . import copy as C, own as O, lockset as L
+    om = O.OwnModel(prog)
+    sm = L.SharedModel(prog)
+    units = CONTAINER_UNITS
+    for u in units:
+        prog.unit(u)
+    O.rule_a1(prog, rep, om, units)
+    O.rule_a2(prog, rep, om, units, sm)
+    O.rule_a3(prog, rep, om, units)
+    O.rule_m2(prog, rep, om, units, sm, fault=True, rid='M2f')
+    rep.floor('A1', 60)
+    rep.floor('A2', 6)
+    rep.floor('A3', 60)
+    rep.floor('M2f', 25)
+    rep.explanation = (
+        'Fault-path discipline in the nine container units (and qinternal.h macros as expanded there), all CFG paths with '
+        'path-sensitive value tracking: A1 every allocation result (malloc/calloc/realloc/strdup/qmemdup/qstrdupf and repo '
+        'functions returning fresh-or-NULL) is NULL-tested before it is dereferenced, handed to a dereferencing callee, or left '
+        'in a must-be-non-NULL node field at return; A2 no may-fail allocation is reachable after a counter increment within '
+        'the operation; A3 every block allocated in a function is freed/returned/stored/handed over on every path to a return, '
+        'and p = realloc(p, n) is rejected; M2f destruction completeness on allocation-failure paths. Not decided: equality of '
+        'observable state before/after a failed call.')
+    rep.assumptions += ['must-be-non-NULL fields are an explicit table (qv/own.py MUST_NONNULL) with one reason each',
+                        'unknown external callees are assumed to take ownership of pointer arguments (no leak reported)',
+                        'string utilities outside the container units are not in scope of C15']
+
+
 PROPS = {
+    'C11': dict(fn=c11, level='other'),
+    'C15': dict(fn=c15, level='other'),
     'C13': dict(fn=c13, level='other'),
     'C14': dict(fn=c14, level='proof'),
 }
